@@ -911,6 +911,13 @@ class InterpBase:
         ex = self.ex
         found, owner = ex.repo.lookup_method(ci, name)
         if found is None:
+            mci = self.metaclass_of(ci)
+            if mci is not None:
+                f2, o2 = ex.repo.lookup_method(mci, name)
+                if f2 is not None:
+                    if isinstance(f2, tuple):
+                        return self.class_attr_value(o2, name, f2[1])
+                    return VBound(VFunc(f2), VClass(ci), o2)
             if name == '__name__':
                 return VStr(ci.name)
             if name in ci.nested:
@@ -919,6 +926,22 @@ class InterpBase:
                 raise Undecided(f'{ci.qualname}.{name}')
             raise PyRaise(self.mkexc('AttributeError', name))
         return self.bind_class_member(found, owner, None, ci, name)
+
+    def metaclass_of(self, ci):
+        ex = self.ex
+        for c in ex.repo.mro(ci):
+            if isinstance(c, ClassInfo) and c.metaclass is not None:
+                m = c.metaclass
+                r = None
+                if isinstance(m, ast.Name):
+                    r = ex.repo.resolve_name(c.module, m.id)
+                elif isinstance(m, ast.Attribute) and isinstance(m.value, ast.Name):
+                    b = ex.repo.resolve_name(c.module, m.value.id)
+                    if b and b[0] == 'module':
+                        r = ex.repo.resolve_name(ex.repo.modules[b[1]], m.attr)
+                if r and r[0] == 'class':
+                    return r[1]
+        return None
 
     def hasattr(self, obj, name):
         ex = self.ex
